@@ -8,7 +8,8 @@ WT=/tmp/vet.$$
 git -C /repo worktree add --detach $WT HEAD >/dev/null 2>&1 || exit 2
 cleanup() { git -C /repo worktree remove --force $WT >/dev/null 2>&1; rm -rf $WT; }
 trap cleanup EXIT
-FLAGS="-std=c++20 -O1 -g -fsanitize=address,undefined -pthread -I/repo/_build/include -I$WT/include"
+SAN="${VET_SAN:-address,undefined}"
+FLAGS="-std=c++20 -O1 -g -fsanitize=$SAN -pthread -I/repo/_build/include -I$WT/include"
 g++ $FLAGS "$D/demo.cpp" -o $WT/demo_clean 2>$WT/cc.log || { echo "VET: demo does not compile on clean tree"; tail -5 $WT/cc.log; exit 1; }
 ( cd $WT && timeout 300 ./demo_clean >/dev/null 2>&1 ); RC_CLEAN=$?
 git -C $WT apply "$D/patch.diff" || { echo "VET: patch does not apply"; exit 1; }
